@@ -27,9 +27,10 @@ type roundCfg struct {
 	txnOps           int // operations per transaction
 	maxTxns          int // transactions per round
 	depth            int
-	c05              bool // evaluate the dead-node / prune oracles instead of the save oracles
-	skipEmptyRecords bool // the caller records dead nodes only in rounds where something died
-	syncOps          bool // a round may end with the authoritative state of the round being merged in (MergeDB)
+	c05              bool  // evaluate the dead-node / prune oracles instead of the save oracles
+	skipEmptyRecords bool  // the caller records dead nodes only in rounds where something died
+	base             int64 // the first round's version is base+1 (round numbers are written as store keys: byte-order boundaries)
+	syncOps          bool  // a round may end with the authoritative state of the round being merged in (MergeDB)
 }
 
 type rEvent struct {
@@ -103,7 +104,7 @@ type crashStats struct {
 }
 
 func newRWorld(c roundCfg) *rWorld {
-	w := &rWorld{c: c, ver: 1, stats: &crashStats{}}
+	w := &rWorld{c: c, ver: c.base + 1, stats: &crashStats{}}
 	w.dev = fmt.Sprintf("rworld-%d", nextDev())
 	pn, err := util.NewPNodeDB(w.dev, "")
 	if err != nil {
@@ -454,7 +455,7 @@ func (w *rWorld) judgeDeadAndPrune(log []grocksdb.Rec) string {
 		}
 	}
 	// Oracle 2: prune at every version, with every crash point
-	for v := int64(1); v <= cur.ver+1; v++ {
+	for v := w.saved[0].ver; v <= cur.ver+1; v++ {
 		allowed := map[string]bool{}
 		for _, s := range w.saved {
 			if s.ver < v {
@@ -661,6 +662,7 @@ func C04(tier rt.Tier) int {
 			{name: "restore-within-round", paths: pfPaths[:2], vals: []string{"x", "y"}, rounds: 2, txnOps: 3, maxTxns: 2, depth: 9},
 			// a round's local computation is superseded by the authoritative state of the round (MergeDB)
 			{name: "sync-merge-2rounds", paths: pfPaths[:3], vals: []string{"x"}, rounds: 2, txnOps: 2, maxTxns: 1, depth: 8, syncOps: true},
+			{name: "rounds-255..257", paths: pfPaths[:2], vals: []string{"x", "y"}, rounds: 3, txnOps: 1, maxTxns: 1, depth: 9, base: 254},
 		}
 	} else {
 		per = 8 * time.Minute
@@ -668,6 +670,7 @@ func C04(tier rt.Tier) int {
 			{name: "prefixfree-3rounds", paths: pfPaths[:5], vals: []string{"x", "y"}, rounds: 3, txnOps: 2, maxTxns: 2, depth: 12},
 			{name: "nested-3rounds", paths: nestedRound, vals: []string{"x"}, rounds: 3, txnOps: 2, maxTxns: 2, depth: 12},
 			{name: "sync-merge-3rounds", paths: nestedRound[:4], vals: []string{"x"}, rounds: 3, txnOps: 2, maxTxns: 1, depth: 12, syncOps: true},
+			{name: "rounds-254..257", paths: pfPaths[:3], vals: []string{"x"}, rounds: 4, txnOps: 1, maxTxns: 2, depth: 14, base: 253},
 		}
 	}
 	if rt.SubRun {
@@ -711,12 +714,19 @@ func C05(tier rt.Tier) int {
 			{name: "idle-rounds-4", paths: pfPaths[:2], vals: []string{"x", "y"}, rounds: 4, txnOps: 1, maxTxns: 1, depth: 11, c05: true, skipEmptyRecords: true},
 			// a round's local computation is superseded by the authoritative state of the round (MergeDB)
 			{name: "sync-merge-2rounds", paths: pfPaths[:3], vals: []string{"x"}, rounds: 2, txnOps: 2, maxTxns: 1, depth: 8, c05: true, syncOps: true},
+			// round numbers are keys of the dead-node records: byte-order boundaries of the key encoding
+			{name: "rounds-255..257", paths: pfPaths[:2], vals: []string{"x", "y"}, rounds: 3, txnOps: 1, maxTxns: 1, depth: 9, c05: true, base: 254},
+			{name: "rounds-65535..65537", paths: pfPaths[:2], vals: []string{"x", "y"}, rounds: 3, txnOps: 1, maxTxns: 1, depth: 9, c05: true, base: 65534},
 		}
 	} else {
 		runs = []roundCfg{
 			{name: "prefixfree-4rounds", paths: pfPaths[:4], vals: []string{"x"}, rounds: 4, txnOps: 1, maxTxns: 3, depth: 14, c05: true},
 			{name: "nested-3rounds", paths: nestedRound, vals: []string{"x", "y"}, rounds: 3, txnOps: 2, maxTxns: 3, depth: 12, c05: true},
 			{name: "sync-merge-3rounds", paths: nestedRound[:4], vals: []string{"x"}, rounds: 3, txnOps: 2, maxTxns: 1, depth: 12, c05: true, syncOps: true},
+			{name: "rounds-254..257", paths: pfPaths[:3], vals: []string{"x"}, rounds: 4, txnOps: 1, maxTxns: 2, depth: 14, c05: true, base: 253},
+			{name: "rounds-65535..65537", paths: pfPaths[:3], vals: []string{"x"}, rounds: 3, txnOps: 1, maxTxns: 2, depth: 11, c05: true, base: 65534},
+			{name: "rounds-2^32-1..2^32+1", paths: pfPaths[:3], vals: []string{"x"}, rounds: 3, txnOps: 1, maxTxns: 2, depth: 11, c05: true, base: 1<<32 - 2},
+			{name: "rounds-2^56-1..2^56+1", paths: pfPaths[:2], vals: []string{"x"}, rounds: 3, txnOps: 1, maxTxns: 2, depth: 11, c05: true, base: 1<<56 - 2},
 		}
 	}
 	if rt.SubRun {
